@@ -154,7 +154,8 @@ Print Assumptions c03_copydone_single_recv_refuted.
 (** T1: the `match code` arms found in server.rs have the signature of the modelled [arm] *)
 Theorem c03_arm_table_is_model :
   map (arm_sig recv_break_D recv_break_d) (map fst recv_arm_sigs) = recv_arm_sigs /\
-  copy_done_outside_copy_dropped = true /\ sync_in_copy_dropped = true.
+  copy_done_outside_copy_dropped = true /\ sync_in_copy_dropped = true /\
+  copy_done_release_checks_copy_mode = true.
 Proof. exact arm_sigs_match. Qed.
 Print Assumptions c03_arm_table_is_model.
 
